@@ -120,6 +120,8 @@ func compare0(r *mon.Rec, s subject, rp replay, ref map[string]string, ops []op,
 	return true
 }
 
+var lastSubject = map[string]func() []op{}
+
 func judge(r *mon.Rec, kind string, idx int, s subject, rng *rand.Rand) {
 	rp := replay{kind, idx}
 	r.Current(rp)
@@ -194,6 +196,21 @@ func judge(r *mon.Rec, kind string, idx int, s subject, rng *rand.Rand) {
 			return
 		}
 	}
+	// other values are read and printed in between (a server logging one packet and then another): what THIS value's
+	// operations return does not depend on which other values the process has looked at.  The other value is the
+	// previous subject of the same family, preferably (two PXE packets, two relay messages).
+	if other := lastSubject[kind]; other != nil && idx%2 == 0 {
+		oo := other()
+		for i := range oo {
+			safe(oo[i].fn)
+		}
+		opsX := s.mk()
+		if len(opsX) == n && !compare("after-reading-another-value", evaluate(opsX, fwd, false), opsX, fwd) {
+			return
+		}
+		r.Count("subjects_reread_after_another_value", 1)
+	}
+	lastSubject[kind] = s.mk
 	// exhaustive short sequences: for small operation sets, all sequences of <= 3 calls followed by a full snapshot
 	if n <= 12 {
 		seqs := 0
